@@ -115,4 +115,92 @@ theorem aliveWAF_all_online (owners : List Nat) (online : List Bool) (read hw : 
           Option.map_some, if_true, List.length_cons, List.range'_succ]
     rw [key owners 0 hall, List.range_eq_range']
 
+/-! ### column store rows -/
+
+theorem find_tag_val {tags : List Tag} {k : String} {t : Tag} (h : tags.find? (·.1 == k) = some t) :
+    t.1 = k ∧ t.2 = tagVal tags k := by
+  induction tags with
+  | nil => simp at h
+  | cons a as ih =>
+    rw [tagVal_cons]
+    simp only [List.find?_cons] at h
+    by_cases hk : (a.1 == k) = true
+    · simp only [hk, Option.some.injEq] at h
+      subst h
+      have : a.1 = k := by simpa using hk
+      simp [this]
+    · simp only [hk] at h
+      have hne : ¬ k = a.1 := fun e => hk (by simp [e])
+      simp only [hne, if_false]
+      exact ih h
+
+theorem fieldKeyWalk_tags (tags fields : List Tag) : ∀ (key : List String) (buf : String),
+    (∀ k ∈ key, ∃ t ∈ tags, t.1 = k) →
+    fieldKeyWalk key tags fields buf = .ok (keyStrFrom buf key (tagVal tags)) := by
+  intro key
+  induction key with
+  | nil => intro buf _; rfl
+  | cons k ks ih =>
+    intro buf h
+    obtain ⟨t, ht, hk⟩ := h k List.mem_cons_self
+    have hsome : (tags.find? (·.1 == k)).isSome = true := by
+      rw [List.find?_isSome]; exact ⟨t, ht, by simp [hk]⟩
+    cases hf : tags.find? (·.1 == k) with
+    | none => rw [hf] at hsome; cases hsome
+    | some t' =>
+      obtain ⟨h1, h2⟩ := find_tag_val hf
+      simp only [fieldKeyWalk, hf, keyStrFrom_cons]
+      rw [ih _ (fun k' hk' => h k' (List.mem_cons_of_mem _ hk'))]
+      simp [appendShardKey, h1, h2]
+
+/-- **column-store rows whose shard key names tags are keyed like time-series rows**: when every
+shard-key name is a tag of the row, `UnmarshalShardKeyByField` builds the string
+`name,k1=v1,…` that `UnmarshalShardKeyByTag` builds — the string `TargetShards` rebuilds from the
+condition — so the pruning theorems carry over to such measurements. -/
+theorem shardKeyByField_eq_tagKey (name : String) (key : List String) (tags fields : List Tag) (sk : String)
+    (hk : key ≠ []) (hu : KeysUnique tags) (hts : shardKeyOf name key tags = .ok sk) :
+    shardKeyByField name key tags fields = .ok sk := by
+  have hspec := shardKeyOf_spec hk hu hts
+  -- every key name occurs among the tags (else the walk of the time-series path rejects)
+  have hall : ∀ k ∈ key, ∃ t ∈ tags, t.1 = k := by
+    have key_all : ∀ (ks : List String) (ts : List Tag) (buf s : String), keyWalk ks ts buf = .ok s →
+        ∀ k ∈ ks, ∃ t ∈ ts, t.1 = k := by
+      intro ks ts
+      induction ts generalizing ks with
+      | nil =>
+        intro buf s h k hk'
+        cases ks with
+        | nil => cases hk'
+        | cons a as => simp [keyWalk] at h
+      | cons t ts ih =>
+        intro buf s h k hk'
+        cases ks with
+        | nil => cases hk'
+        | cons a as =>
+          simp only [keyWalk] at h
+          split at h
+          · cases h
+          · split at h
+            · cases h
+            · split at h
+              · rename_i heq
+                rcases List.mem_cons.1 hk' with e | hk''
+                · exact ⟨t, List.mem_cons_self, by rw [e, heq]⟩
+                · obtain ⟨t', ht', he'⟩ := ih as _ s h k hk''
+                  exact ⟨t', List.mem_cons_of_mem _ ht', he'⟩
+              · obtain ⟨t', ht', he'⟩ := ih (a :: as) buf s h k hk'
+                exact ⟨t', List.mem_cons_of_mem _ ht', he'⟩
+    unfold shardKeyOf at hts
+    have : key.isEmpty = false := by cases key <;> simp_all
+    rw [this] at hts
+    exact key_all key tags name sk hts
+  unfold shardKeyByField
+  rw [fieldKeyWalk_tags tags fields key name hall, hspec]
+
+/-- non-vacuity; and a shard-key name found only among the fields is taken from there. -/
+example : (shardKeyByField "m" ["host", "region"] [("region", "x"), ("host", "a")] []).toOption = some "m,host=a,region=x" ∧
+    (shardKeyOf "m" ["host", "region"] [("host", "a"), ("region", "x")]).toOption = some "m,host=a,region=x" ∧
+    (shardKeyByField "m" ["host", "msg"] [("host", "a")] [("msg", "hi")]).toOption = some "m,host=a,msg=hi" ∧
+    (shardKeyByField "m" ["host", "zz"] [("host", "a")] [("msg", "hi")]).toOption = none := by decide
+
 end OG.C11
